@@ -241,6 +241,9 @@ impl Check for C15 {
             .prop_map(|(proxy, limit, conns)| Case { proxy, limit, conns })
             .boxed()
     }
+    fn max_shrink_iters(&self) -> u32 {
+        60
+    }
     fn cases(&self, tier: Tier) -> u64 {
         tier.pick(200, 10_000)
     }
